@@ -113,6 +113,7 @@ class Exec:
         self.global_regions = {}
         self.stats = dict(blocks=0, edges=0, ins=0, inlined=0)
         self.assumptions = []    # constraints introduced by stubs (e.g. allocator results are fresh)
+        self.arith_log = []      # executed mul/sdiv/srem with symbolic operands: dict(op, g, x, y, r, fn) (operand lemmas)
         self.trace_functions = set()
         self._layout_cache = {}
 
@@ -728,6 +729,8 @@ class Exec:
                 r = a_ - z3.SRem(a_, b_)
             else:
                 r = x * y
+                if not (z3.is_bv_value(z3.simplify(x)) or z3.is_bv_value(z3.simplify(y))):
+                    self.arith_log.append(dict(op='mul', g=g, x=x, y=y, r=r, fn=fn))
                 if 'nsw' in flags: need(z3.Not(z3.And(z3.BVMulNoOverflow(x, y, True), z3.BVMulNoUnderflow(x, y))), 'signed overflow')
                 if 'nuw' in flags: need(z3.Not(z3.BVMulNoOverflow(x, y, False)), 'unsigned overflow')
         elif op == 'and': r = x & y
@@ -749,8 +752,10 @@ class Exec:
             if op == 'sdiv':
                 r = z3.BVSDiv(x, y) if hasattr(z3, 'BVSDiv') else x / y
                 self._sdivs[r.get_id()] = (x, y)
+                self.arith_log.append(dict(op='sdiv', g=g, x=x, y=y, r=r, fn=fn))
             else:
                 r = z3.SRem(x, y)
+                self.arith_log.append(dict(op='srem', g=g, x=x, y=y, r=r, fn=fn))
         elif op in ('udiv', 'urem'):
             need(y == 0, 'division by zero')
             r = z3.UDiv(x, y) if op == 'udiv' else z3.URem(x, y)
